@@ -83,6 +83,33 @@ static std::string refValue(std::string const& loss, std::vector<double> const& 
 	return "";
 }
 
+
+// ---- output-object re-use (Model/LossOut.lean): ONE gradient matrix / ONE sequence-gradient object is handed to a history
+// of derivative calls (this is how ErrorFunctionImpl::evalDerivative(start,end,…) uses its `errorDerivative`); the oracle
+// repeats every call on a freshly constructed object and demands the same value, shape and entries.
+static RealMatrix Gshared;
+static std::vector<Sequence> Sshared;
+static bool sameD(double a, double b){ return a == b || (std::isnan(a) && std::isnan(b)); }
+template<class LT, class Labels>
+std::string reuseCall(AbstractLoss<LT,RealVector> const& lo, Labels const& labels, RealMatrix const& P, RealMatrix& G){
+	RealVector gv(G.size2(), 0.0); for(std::size_t j = 0; j != gv.size() && G.size1(); ++j) gv(j) = G(0,j);   // garbage for the element interface
+	double v = lo.evalDerivative(labels, P, G);
+	RealMatrix F; double vf = lo.evalDerivative(labels, P, F);
+	std::string out = "V=" + vh::exactDouble(v) + " S=" + std::to_string(G.size1()) + "x" + std::to_string(G.size2()) + " G=" + showMat(G);
+	bool same = sameD(v, vf) && G.size1() == F.size1() && G.size2() == F.size2();
+	for(std::size_t i = 0; same && i != G.size1(); ++i) for(std::size_t j = 0; j != G.size2(); ++j) if(!sameD(G(i,j), F(i,j))){ same = false; break; }
+	if(!same) out += " !oracle output-depends-on-previous-contents";
+	// the single-element interface with ONE gradient vector for all rows (WeightedErrorFunctionImpl's `singleDerivative`)
+	for(std::size_t i = 0; i != P.size1(); ++i){
+		RealVector p = row(P, i), fresh; LT li = getBatchElement(labels, i);
+		double a = lo.evalDerivative(li, p, gv), b = lo.evalDerivative(li, p, fresh);
+		bool ok = sameD(a, b) && gv.size() == fresh.size();
+		for(std::size_t j = 0; ok && j != gv.size(); ++j) if(!sameD(gv(j), fresh(j))) ok = false;
+		if(!ok){ out += " !oracle element-derivative-depends-on-previous-contents"; break; }
+	}
+	return out;
+}
+
 int main(){
 	std::string line;
 	bool floatMode = false;
@@ -92,6 +119,78 @@ int main(){
 		std::vector<double> par, labs, prs; std::vector<std::size_t> dims;
 		std::string out = "bad-op";
 		if(c06b_dispatch(secs, floatMode, out)){ std::cout << out << "\n"; continue; }
+		if(secs.size() == 3 && secs[0].size() == 1 && secs[0][0] == "gset"){
+			// gset | n m | values : the shared gradient object gets this shape and these (garbage) contents
+			std::vector<double> v;
+			if(vh::allNat(secs[1], 0, dims) && dims.size() == 2 && nums(secs[2], v) && v.size() == dims[0]*dims[1]){
+				Gshared = RealMatrix(dims[0], dims[1]);
+				for(std::size_t i = 0; i != dims[0]; ++i) for(std::size_t j = 0; j != dims[1]; ++j) Gshared(i,j) = v[i*dims[1]+j];
+				out = "ok";
+			}
+			std::cout << out << "\n"; continue;
+		}
+		if(secs.size() == 4 && secs[0].size() == 1 && secs[0][0] == "sset"){
+			// sset | d | lengths | fill : the shared sequence-gradient object holds sequences of these lengths
+			std::vector<std::size_t> dd, lens; std::vector<double> f;
+			if(vh::allNat(secs[1], 0, dd) && dd.size() == 1 && vh::allNat(secs[2], 0, lens) && nums(secs[3], f) && f.size() == 1){
+				Sshared.assign(lens.size(), Sequence());
+				for(std::size_t i = 0; i != lens.size(); ++i) for(std::size_t j = 0; j != lens[i]; ++j) Sshared[i].push_back(RealVector(dd[0], f[0]));
+				out = "ok";
+			}
+			std::cout << out << "\n"; continue;
+		}
+		if(secs.size() == 5 && secs[0].size() == 1 && secs[0][0] == "rseq" && nums(secs[3], labs) && nums(secs[4], prs)){
+			// rseq | ignore dim | lengths | labels | predictions : SquaredLoss<Sequence,Sequence>::evalDerivative into the shared object
+			std::vector<std::size_t> id, lens;
+			if(vh::allNat(secs[1], 0, id) && id.size() == 2 && vh::allNat(secs[2], 0, lens)){
+				std::size_t ignore = id[0], d = id[1], tot = 0; for(std::size_t x: lens) tot += x;
+				if(labs.size() == tot*d && prs.size() == tot*d){
+					std::vector<Sequence> Lb(lens.size()), Pb(lens.size()); std::size_t pos = 0;
+					for(std::size_t i = 0; i != lens.size(); ++i) for(std::size_t j = 0; j != lens[i]; ++j, ++pos){
+						RealVector a(d), b(d); for(std::size_t q = 0; q != d; ++q){ a(q) = labs[pos*d+q]; b(q) = prs[pos*d+q]; }
+						Lb[i].push_back(a); Pb[i].push_back(b);
+					}
+					SquaredLoss<Sequence,Sequence> l(ignore);
+					try{
+						std::vector<Sequence> old = Sshared, F;
+						double v = l.evalDerivative(Lb, Pb, Sshared), vf = l.evalDerivative(Lb, Pb, F);
+						out = "V=" + vh::exactDouble(v) + " G=";
+						for(std::size_t i = 0; i != Sshared.size(); ++i){ if(i) out += "/"; for(std::size_t j = 0; j != Sshared[i].size(); ++j){ if(j) out += ";"; out += showVec(Sshared[i][j]); } }
+						auto eqSeq = [](Sequence const& a, Sequence const& b){ if(a.size() != b.size()) return false; for(std::size_t j = 0; j != a.size(); ++j){ if(a[j].size() != b[j].size()) return false; for(std::size_t q = 0; q != a[j].size(); ++q) if(!sameD(a[j](q), b[j](q))) return false; } return true; };
+						bool same = sameD(v, vf) && Sshared.size() == F.size();
+						for(std::size_t i = 0; same && i != F.size(); ++i) same = eqSeq(Sshared[i], F[i]);
+						if(!same){
+							// signature of F-C06-5: every sequence is what the object held (first n entries) followed by the fresh result
+							bool appended = Sshared.size() == F.size();
+							for(std::size_t i = 0; appended && i != F.size(); ++i){ Sequence e = i < old.size() ? old[i] : Sequence(); e.insert(e.end(), F[i].begin(), F[i].end()); appended = eqSeq(Sshared[i], e); }
+							out += appended ? " !oracle F-C06-5-sequence-gradient-appended-to-reused-object" : " !oracle output-depends-on-previous-contents";
+						}
+					}catch(shark::Exception const&){ out = "exception"; }
+				}
+			}
+			std::cout << out << "\n"; continue;
+		}
+		if(secs.size() == 5 && secs[0].size() == 2 && secs[0][0] == "rderiv" && vh::allNat(secs[2], 0, dims) && dims.size() == 2 && nums(secs[1], par) && nums(secs[3], labs) && nums(secs[4], prs)){
+			// rderiv <loss> | par | n m | labels | predictions : evalDerivative into the shared gradient object
+			std::string loss = secs[0][1]; std::size_t n = dims[0], m = dims[1];
+			if(prs.size() == n*m){
+				RealMatrix P(n, m); for(std::size_t i = 0; i != n; ++i) for(std::size_t j = 0; j != m; ++j) P(i,j) = prs[i*m+j];
+				bool vecLabels = labs.size() == n*m, clsLabels = labs.size() == n;
+				RealMatrix L(n, m); UIntVector C(n);
+				if(vecLabels) for(std::size_t i = 0; i != n; ++i) for(std::size_t j = 0; j != m; ++j) L(i,j) = labs[i*m+j];
+				if(clsLabels) for(std::size_t i = 0; i != n; ++i) C(i) = (unsigned)labs[i];
+				if(loss == "squared" && vecLabels){ SquaredLoss<> l; out = reuseCall<RealVector>(l, L, P, Gshared); }
+				else if(loss == "squaredclass" && clsLabels){ SquaredLoss<RealVector,unsigned int> l; out = reuseCall<unsigned int>(l, C, P, Gshared); }
+				else if(loss == "hinge" && clsLabels){ HingeLoss l; out = reuseCall<unsigned int>(l, C, P, Gshared); }
+				else if(loss == "sqhinge" && clsLabels){ SquaredHingeLoss l; out = reuseCall<unsigned int>(l, C, P, Gshared); }
+				else if(loss == "epshinge" && vecLabels){ EpsilonHingeLoss l(par.empty() ? 0.0 : par[0]); out = reuseCall<RealVector>(l, L, P, Gshared); }
+				else if(loss == "sqepshinge" && vecLabels){ SquaredEpsilonHingeLoss l(par.empty() ? 0.0 : par[0]); out = reuseCall<RealVector>(l, L, P, Gshared); }
+				else if(loss == "huber" && vecLabels){ HuberLoss l(par.empty() ? 1.0 : par[0]); out = reuseCall<RealVector>(l, L, P, Gshared); }
+				else if(loss == "crossentropy" && clsLabels){ CrossEntropy<unsigned int, RealVector> l; out = reuseCall<unsigned int>(l, C, P, Gshared); }
+				else if(loss == "crossentropysoft" && vecLabels){ CrossEntropy<RealVector, RealVector> l; out = reuseCall<RealVector>(l, L, P, Gshared); }
+			}
+			std::cout << out << "\n"; continue;
+		}
 		if(secs.size() == 5 && secs[0].size() == 2 && secs[0][0] == "hess" && vh::allNat(secs[2], 0, dims) && dims.size() == 2 && nums(secs[3], labs) && nums(secs[4], prs) && labs.size() == 1 && prs.size() == dims[1]){
 			// second-derivative overload of CrossEntropy (single element), reached through the AbstractLoss interface
 			CrossEntropy<unsigned int, RealVector> ce; AbstractLoss<unsigned int, RealVector> const& base = ce;
